@@ -495,10 +495,15 @@ func c17Linux(r *Run, db *SiteDB, info *types.Info, fi *FuncInfo) {
 			}
 		}
 		if ifs != nil && ifs.Else != nil && zeroInit {
-			c := norm(ifs.Cond)
+			// canonical comparison "len(bufs[0]) > cur-consumed": false on the branch that drops the
+			// whole buffer, true on the branch that advances inside it - whichever is written first
+			ckey, cpol := atomOf(newResolver(r.L, info, r.L.enclosingDecl(cons)), info, nil, ifs.Cond)
+			condOK := nospace(ckey) == "len("+b0+")>"+rest
 			thenS := norm(ifs.Body)
 			elseS := norm(ifs.Else)
-			condOK := c == "len("+b0+")<="+rest || c == rest+">=len("+b0+")"
+			if cpol {
+				thenS, elseS = elseS, thenS // the then-branch is the partial one
+			}
 			thenOK := strings.Contains(thenS, a+"+=len("+b0+")") && strings.Contains(thenS, consBufs+"="+consBufs+"[1:]") && strings.Index(thenS, a+"+=len("+b0+")") < strings.Index(thenS, consBufs+"="+consBufs+"[1:]")
 			elseOK := strings.Contains(elseS, b0+"="+b0+"["+rest+":]") && strings.Contains(elseS, "break")
 			okT = condOK && thenOK && elseOK
